@@ -29,7 +29,7 @@ class C11(vlib.Check):
     rule = ('product of alignment {none,<,>} x pad {none,_*,0,_*0,0_*,_space} x # x + x class {none,d,x,X,o,b} (432 flag '
             'sets, flags also emitted in a second order) x width {0,len-1,len,len+1,len+sign+prefix-1,len+sign+prefix,'
             'len+sign+prefix+1,40} x values drawn from {0,+-1,+-radix^k+-1,min,max} of i8,u8,i16,u16,i32,u32,long,ulong,'
-            'long long,ulong long (quick: 24 (type, value, width) draws per flag set, thorough: 160); {c} over code-point boundaries '
+            'long long,ulong long (quick: 24 (type, value, width) draws per flag set, thorough: 400); {c} over code-point boundaries '
             '0,7F,80,7FF,800,D7FF,D800,DFFF,E000,FFFF,10000,10FFFF,110000,-1,min,max,2^32+0x41 for every integer type, char, '
             'wchar_t, char32_t, plus padded {c} (documented abort); text of length 0..6 (ASCII and multi-byte) x precision '
             '{none,0,len-1,len,len+1} x width {0,len-1,len,len+1,40} x alignment x pad for const char*, ST::string, '
@@ -37,6 +37,8 @@ class C11(vlib.Check):
             'doubles {0,-0,1,-1.5,pi,inf,-inf,nan,1e100,denormal,DBL_MAX,...} x {none,f,e,E} x precision x width x + x '
             'alignment through the libc oracle; seeded random field soups. Compared: exact bytes (size, terminator). '
             'non-trivial = at least one field; distinct = distinct case line')
+    partial = ('floating-point digits are the C library\'s (oracle shared by model and spec): for doubles the theorem covers sign '
+               'flag, precision, class letter and padding, not the digits (C13)')
     modelled_not_verified = (
         'strtol(.,&end,10) inside fields: Fmt/Strtol.v (validated against glibc in C10)',
         'floating-point digits are the C library\'s: model and spec use the same oracle (OCaml Printf -> printf); what is '
@@ -51,7 +53,7 @@ class C11(vlib.Check):
 
     def gen(self, rng, tier):
         quick = tier == 'quick'
-        per = 24 if quick else 160
+        per = 24 if quick else 400
         pool = {}
         for tok, (sg, bits) in INT_TYPES.items():
             pool[tok] = int_values(sg, bits)
@@ -160,7 +162,7 @@ class C11(vlib.Check):
                 yield fmt_case('string', 'default', f, ['f64:' + bits])
         # ---- seeded soups
         flagch = b'<>#+xXdob0123456789'
-        for _ in range(2000 if quick else 40000):
+        for _ in range(2000 if quick else 80000):
             nf = rng.choice([1, 1, 2, 3])
             f = b''
             args = []
